@@ -301,6 +301,12 @@ func c26RefParse(s []byte) c26Expect {
 		return c26RefV1(s)
 	}
 	if len(s) >= 5 && bytes.Equal(s[:5], c26Sig[:5]) {
+		if len(s) >= 12 {
+			// all 12 bytes are there and they are NOT the v2 signature: this is a connection
+			// without a PROXY header, it must pass through untouched
+			return c26Expect{Class: "lookalike-v2-signature"}
+		}
+		// fewer than 12 bytes before EOF: cannot be told apart from a cut-off header
 		return c26Expect{NearMiss: true, Class: "nearmiss-v2-signature"}
 	}
 	if len(s) < 5 {
@@ -568,7 +574,7 @@ func c26GenHeader(t *rapid.T, st *vfkit.Stats) ([]byte, c26Expect) {
 	kind := rapid.SampledFrom([]string{
 		"v1-tcp4", "v1-tcp6", "v1-unknown", "v1-lenient",
 		"v2-proxy", "v2-proxy", "v2-proxy", "v2-local", "v2-addrfree",
-		"plain", "nearmiss", "random",
+		"plain", "nearmiss", "nearmiss", "random",
 	}).Draw(t, "kind")
 	switch kind {
 	case "v1-tcp4", "v1-tcp6":
@@ -695,10 +701,23 @@ func c26GenHeader(t *rapid.T, st *vfkit.Stats) ([]byte, c26Expect) {
 		}
 		return b, c26Expect{}
 	case "nearmiss":
-		switch rapid.IntRange(0, 5).Draw(t, "nearmiss-kind") {
-		case 0:
+		switch rapid.IntRange(0, 7).Draw(t, "nearmiss-kind") {
+		case 0: // every proper prefix of "PROXY" / "PROXY " followed by something else
+			k := rapid.IntRange(1, 5).Draw(t, "prefix")
 			n := rapid.IntRange(0, 40).Draw(t, "n")
-			return append([]byte("PROX"), rapid.SliceOfN(rapid.Byte(), n, n).Draw(t, "b")...), c26Expect{}
+			b := append([]byte("PROXY "[:k]), rapid.SliceOfN(rapid.Byte(), n, n).Draw(t, "b")...)
+			if len(b) > k && b[k] == "PROXY "[k] {
+				b[k] ^= 0x20
+			}
+			return b, c26Expect{}
+		case 6, 7: // every proper prefix (1..11 bytes) of the v2 signature followed by other bytes
+			k := rapid.IntRange(1, 11).Draw(t, "prefix")
+			n := rapid.SampledFrom([]int{0, 1, 5, 7, 11, 12, 16, 28, 40, 300}).Draw(t, "n")
+			b := append(append([]byte(nil), c26Sig[:k]...), rapid.SliceOfN(rapid.Byte(), n, n).Draw(t, "b")...)
+			if len(b) > k && b[k] == c26Sig[k] {
+				b[k] ^= 0x55
+			}
+			return b, c26Expect{}
 		case 1: // signature with one byte altered
 			s := append([]byte(nil), c26Sig...)
 			i := rapid.IntRange(0, 11).Draw(t, "i")
@@ -864,6 +883,9 @@ func TestVF_C26_Witness(t *testing.T) {
 		what += "addresses reported correctly"
 	}
 	st.KnownResult(c26FindingFamily, msg != "", what)
+	if msg != "" && !vfkit.Known(c26FindingFamily) {
+		t.Fatalf("regression of a repaired finding (%s is not listed as known): %s", c26FindingFamily, what)
+	}
 	st.NonTrivial("witness", msg != "")
 	st.Sample(map[string]any{"witness_hex": fmt.Sprintf("%x", stream), "result": what})
 	t.Log(what)
